@@ -319,6 +319,15 @@ fn check_taiko(run: &mut Run, id: &str, map: &Beatmap, settings: &Settings, pass
     if trace.color.iter().any(|x| *x < 0.0) {
         run.count("tskill:negative-color-object-strain");
     }
+    // strain_value_of < 0  <=>  the object strain falls below the decayed previous one
+    let negative_eval = (1..trace.color.len().min(n)).any(|i| {
+        trace.color[i] < trace.color[i - 1] * 0.8f64.powf(trace.records[i].delta_time / 1000.0) - 1e-6
+    });
+    if negative_eval {
+        run.count("tskill:negative-color-evaluator-output");
+    } else if id == "tk-negative-color-witness" {
+        run.fail("oracle:color-negative-witness-not-reproduced", "", id, "the map of C16d.color_eval_nonneg_fails no longer yields a negative colour object strain".to_owned(), repro.to_owned());
+    }
     if trace.single_color_stamina.iter().zip(trace.stamina.iter()).any(|(m, s)| m > s) {
         run.fail("oracle:taiko-mono-strain-exceeds-stamina", "", id, "single-colour object strain above the stamina object strain".to_owned(), repro.to_owned());
     }
@@ -627,6 +636,17 @@ pub fn run(run: &mut Run, tier: &str, seed: u64, only: Option<&str>) {
                 cases.push((format!("tp-{len}-{pattern}-{timing}"), 1, taiko_pattern_map(pattern, len, timing).render(), settings));
             }
         }
+    }
+    // the Lean counter-witness `C16d.color_eval_nonneg_fails` on the real code: alternating 100 / 300 ms
+    // gaps give a consistent rhythm ratio of 3, for which `consistent_ratio_penalty` is -0.2
+    {
+        let mut m = MapSpec { mode: 1, ..Default::default() };
+        let mut t = 1000.0;
+        for i in 0..14 {
+            m.objects.push(ObjSpec { x: 256, y: 192, time: t, sound: if i % 3 == 0 { 8 } else { 0 }, kind: ObjKind::Circle });
+            t += if i % 2 == 0 { 100.0 } else { 300.0 };
+        }
+        cases.push(("tk-negative-color-witness".to_owned(), 1, m.render(), Settings::default()));
     }
     let n_taiko = if thorough { 1500 } else { 150 };
     for i in 0..n_taiko {
